@@ -170,7 +170,7 @@ Section Cells.
   Inductive cards_read : list (string * list string) -> list (list T) -> Prop :=
   | cr_nil : cards_read [] []
   | cr_cons name toks es vals cards valss :
-      reads P toks es -> meaning Sc es None = Some (map Some vals) ->
+      reads P toks es -> meaning Sc (pw P) es None = Some (map Some vals) ->
       cards_read cards valss ->
       cards_read ((name, toks) :: cards) (vals :: valss).
 
@@ -213,6 +213,92 @@ Section Cells.
     - symmetry. apply forallb_forall. intros l Hin. apply in_map_iff in Hin.
       destruct Hin as (l0 & <- & Hin0). rewrite !map_length.
       apply Nat.eqb_eq. rewrite Forall_forall in Hl. apply Hl. exact Hin0.
+  Qed.
+
+  (* ---- jumped entries (nJ): the code keeps None ---- *)
+
+  (* [cards_read_o cards valss]: as [cards_read], entries may be jumped (None) *)
+  Inductive cards_read_o : list (string * list string) -> list (list (option T)) -> Prop :=
+  | cro_nil : cards_read_o [] []
+  | cro_cons name toks es vals cards valss :
+      reads P toks es -> meaning Sc (pw P) es None = Some vals ->
+      cards_read_o cards valss ->
+      cards_read_o ((name, toks) :: cards) (vals :: valss).
+
+  Lemma expand_all_read_o cards valss :
+    cards_read_o cards valss -> expand_all Sc P cards = Ok valss.
+  Proof.
+    induction 1 as [|name toks es vals cards valss Hr Hm Hc IH]; [reflexivity|].
+    cbn [expand_all]. rewrite (expand_shorthand Sc P _ _ _ Hr Hm). cbn [bind].
+    rewrite IH. reflexivity.
+  Qed.
+
+  (* a single IMP card is taken as it is, jumped entries included *)
+  Theorem importance_cards_single name toks es vals :
+    reads P toks es -> meaning Sc (pw P) es None = Some vals ->
+    importance_cards Sc P [(name, toks)] = Ok vals.
+  Proof.
+    intros Hr Hm. unfold importance_cards. cbn [dict_of fold_left dict_set fst snd].
+    cbn [expand_all]. rewrite (expand_shorthand Sc P _ _ _ Hr Hm). reflexivity.
+  Qed.
+
+  Definition has_none (l : list (option T)) : bool :=
+    existsb (fun o => match o with None => true | Some _ => false end) l.
+
+  Lemma zip_max_none a : forall b,
+    List.length a = List.length b -> has_none a || has_none b = true -> zip_max Sc a b = Err EType.
+  Proof.
+    induction a as [|x a IH]; intros [|y b] Hl Hn; try discriminate.
+    cbn [zip_max]. destruct x as [x|]; [|reflexivity]. destruct y as [y|]; [|reflexivity].
+    cbn [pmax bind]. rewrite IH; [reflexivity|cbn in Hl; lia|exact Hn].
+  Qed.
+
+  Lemma zip_max_ok a : forall b,
+    List.length a = List.length b -> has_none a = false -> has_none b = false ->
+    exists m, zip_max Sc a b = Ok m /\ has_none m = false /\ List.length m = List.length a.
+  Proof.
+    induction a as [|x a IH]; intros [|y b] Hl Ha Hb; try discriminate.
+    - exists []. repeat split.
+    - destruct x as [x|]; [|discriminate]. destruct y as [y|]; [|discriminate].
+      destruct (IH b) as (m & Hm & Hn & Hlen); [cbn in Hl; lia|exact Ha|exact Hb|].
+      cbn [zip_max pmax bind]. rewrite Hm. eexists. split; [reflexivity|]. split; [exact Hn|].
+      cbn. rewrite Hlen. reflexivity.
+  Qed.
+
+  Lemma fold_max_none others : forall first,
+    others <> [] -> Forall (fun l => List.length l = List.length first) others ->
+    existsb has_none (first :: others) = true -> fold_max Sc first others = Err EType.
+  Proof.
+    induction others as [|b r IH]; intros first Hne Hl Hn; [congruence|].
+    inversion Hl as [|? ? Hb Hr]; subst. cbn [fold_max].
+    destruct (has_none first || has_none b) eqn:E.
+    - rewrite zip_max_none; [reflexivity|symmetry; exact Hb|exact E].
+    - apply orb_false_iff in E. destruct E as [E1 E2].
+      destruct (zip_max_ok first b (eq_sym Hb) E1 E2) as (m & Hm & Hmn & Hlen). rewrite Hm. cbn [bind].
+      cbn [existsb] in Hn. rewrite E1, E2 in Hn. cbn [orb] in Hn.
+      apply IH.
+      + intros ->. discriminate.
+      + eapply Forall_impl; [|exact Hr]. intros l Hl'. cbn beta in Hl'. rewrite Hl', Hlen. reflexivity.
+      + cbn [existsb]. rewrite Hmn. exact Hn.
+  Qed.
+
+  (* two or more IMP cards of one length, one of them with a jumped entry:
+     max(None, x) is a TypeError *)
+  Theorem importance_cards_jump_refused cards first others :
+    NoDup (map fst cards) -> cards_read_o cards (first :: others) -> others <> [] ->
+    Forall (fun l => List.length l = List.length first) others ->
+    existsb has_none (first :: others) = true ->
+    importance_cards Sc P cards = Err EType.
+  Proof.
+    intros Hn Hc Hne Hl Hj. unfold importance_cards.
+    rewrite (dict_of_distinct String.eqb String.eqb_eq _ Hn).
+    pose proof (expand_all_read_o _ _ Hc) as He.
+    inversion Hc as [|name toks es vals cards' valss Hr Hm Hc']; subst.
+    cbv beta iota. rewrite He. cbn [bind].
+    replace (forallb _ others) with true.
+    - apply fold_max_none; assumption.
+    - symmetry. apply forallb_forall. intros l Hin. apply Nat.eqb_eq.
+      rewrite Forall_forall in Hl. apply Hl. exact Hin.
   Qed.
 
   (* cards of different lengths are refused *)
